@@ -1,11 +1,13 @@
 ---------------------------- MODULE MC_Pipeline ----------------------------
 (* Bounded instances of Pipeline for model checking (use M).                 *)
-(*   MC_Pipeline_quick  : programs of length <= 5 on two directories over a  *)
-(*                        reduced option alphabet                            *)
-(*   MC_Pipeline        : programs of length <= 6 over the full alphabet     *)
+(*   MC_Pipeline_quick  : programs of length <= 6 on two directories over a  *)
+(*                        reduced option alphabet, one orientation code      *)
+(*   MC_Pipeline        : programs of length <= 6 over the full alphabet,    *)
+(*                        two orientation codes, two input classes           *)
 (*   MC_Pipeline_all    : EVERY program (no length bound): the abstract      *)
 (*                        state space is finite, n is hidden by a VIEW       *)
-(*   MC_Pipeline_all_quick : the same over a reduced option alphabet          *)
+(*                        (three methods, one orientation code)              *)
+(*   MC_Pipeline_all_quick : the same over the reduced option alphabet       *)
 (*   MC_Pipeline_devMethod / _devLayout : deviation switches - must FAIL     *)
 EXTENDS Pipeline
 MCDirs == {"A", "B"}
